@@ -342,6 +342,11 @@ impl Prop for C15 {
                     ex.fail("c15-wire-null-accepted", format!("NULL offered to a NOT NULL column was not refused ({:?})", o.offers_accepted));
                     return ex;
                 }
+                if o.failed_after_refused_offer && !o.result.is_panic() {
+                    // (a writer that is unusable after a refusal: nothing more to learn here)
+                    ex.class("wire-sample:writer-unusable-after-the-refusal");
+                    continue;
+                }
                 let refused = o.calls.iter().any(|c| !c.ok) || o.result.is_panic();
                 if refused {
                     // must not have been refused if the model says it must be accepted
